@@ -2,6 +2,7 @@ package drv
 
 import (
 	"bytes"
+	"context"
 	"fmt"
 	"math/big"
 	"math/rand"
@@ -13,6 +14,7 @@ import (
 	simchannel "perun.network/go-perun/backend/sim/channel"
 	simwallet "perun.network/go-perun/backend/sim/wallet"
 	"perun.network/go-perun/channel"
+	"perun.network/go-perun/channel/persistence"
 	"perun.network/go-perun/wallet"
 	"verif/harness/tla"
 )
@@ -62,7 +64,7 @@ func (e *MachineEnv) AccMap(i int) map[wallet.BackendID]wallet.Account {
 
 // alloc builds the concrete allocation of a candidate.
 func (e *MachineEnv) alloc(tag string, sum int) channel.Allocation {
-	total := int64(10 + sum)
+	total := int64(10 + sum + (e.N - 2))
 	var p0 int64 = 4
 	if tag == "b" {
 		p0 = 6
@@ -235,6 +237,52 @@ type MachineRun struct {
 	M       *channel.StateMachine
 	Cands   []tla.Val
 	Adopted bool // driver-side history: current state was set by SetProgressed
+	// P, if set, is the persisting wrapper around M; operations then go through it.
+	P *persistence.StateMachine
+}
+
+// machineOps abstracts over channel.StateMachine and persistence.StateMachine.
+type machineOps struct {
+	Init           func(channel.Allocation, channel.Data) error
+	Update         func(*channel.State, channel.Index) error
+	ForceUpdate    func(*channel.State, channel.Index) error
+	Sig            func() (wallet.Sig, error)
+	AddSig         func(channel.Index, wallet.Sig) error
+	EnableInit     func() error
+	EnableUpdate   func() error
+	EnableFinal    func() error
+	DiscardUpdate  func() error
+	SetFunded      func() error
+	SetRegistering func() error
+	SetRegistered  func() error
+	SetWithdrawing func() error
+	SetWithdrawn   func() error
+	SetProgressing func(*channel.State) error
+	SetProgressed  func(*channel.ProgressedEvent) error
+}
+
+func (r *MachineRun) ops() machineOps {
+	if r.P == nil {
+		m := r.M
+		return machineOps{m.Init, m.Update, m.ForceUpdate, m.Sig, m.AddSig, m.EnableInit, m.EnableUpdate, m.EnableFinal,
+			m.DiscardUpdate, m.SetFunded, m.SetRegistering, m.SetRegistered, m.SetWithdrawing, m.SetWithdrawn,
+			m.SetProgressing, m.SetProgressed}
+	}
+	p := r.P
+	c := context.Background()
+	return machineOps{
+		func(a channel.Allocation, d channel.Data) error { return p.Init(c, a, d) },
+		func(s *channel.State, i channel.Index) error { return p.Update(c, s, i) },
+		func(s *channel.State, i channel.Index) error { return p.ForceUpdate(c, s, i) },
+		func() (wallet.Sig, error) { return p.Sig(c) },
+		func(i channel.Index, s wallet.Sig) error { return p.AddSig(c, i, s) },
+		func() error { return p.EnableInit(c) }, func() error { return p.EnableUpdate(c) }, func() error { return p.EnableFinal(c) },
+		func() error { return p.DiscardUpdate(c) }, func() error { return p.SetFunded(c) },
+		func() error { return p.SetRegistering(c) }, func() error { return p.SetRegistered(c) },
+		func() error { return p.SetWithdrawing(c) }, func() error { return p.SetWithdrawn(c) },
+		func(s *channel.State) error { return p.SetProgressing(c, s) },
+		func(e *channel.ProgressedEvent) error { return p.SetProgressed(c, e) },
+	}
 }
 
 // NewRun creates a fresh machine.
@@ -300,7 +348,8 @@ func (r *MachineRun) Exec(a *tla.Action, pre tla.Rec) (res string) {
 		return "Err"
 	}
 	name := strings.TrimSuffix(strings.TrimSuffix(a.Name, "Ok"), "Err")
-	m, e := r.M, r.E
+	m, e := r.ops(), r.E
+	rm := r.M
 	idx := func(v tla.Val) channel.Index { return channel.Index(v.(int)) }
 	switch name {
 	case "Init":
@@ -336,7 +385,7 @@ func (r *MachineRun) Exec(a *tla.Action, pre tla.Rec) (res string) {
 		default:
 			g = mGarbage
 		}
-		return cls(m.CheckUpdate(e.State(c).Clone(), idx(a.Args[1]), cloneSig(e.Sig(g)), channel.Index(i)))
+		return cls(rm.CheckUpdate(e.State(c).Clone(), idx(a.Args[1]), cloneSig(e.Sig(g)), channel.Index(i)))
 	case "Sig":
 		_, err := m.Sig()
 		return cls(err)
